@@ -167,13 +167,14 @@ port (memory.py:166-171, same granularity: memory.py:154).  The physical read po
 transparent for the physical write port iff the external write port is in the external read
 port's transparency set (memory.py:155-159).  `write_port()` refuses a second write port
 (memory.py:137-140), so `c.grans` has at most one element. -/
-namespace MultiRead
-
-/-- one physical memory: contents and the data register of its read port -/
+/-- one physical `amaranth.lib.memory.Memory` with one read port: contents and the data
+    register of the read port -/
 structure Bank where
   mem : List Nat
   rdata : Nat
 deriving Repr, DecidableEq, Inhabited
+
+namespace MultiRead
 
 structure State where
   banks : List Bank
